@@ -5,6 +5,7 @@ Driver for C04 (sale window and entitlement). One output line per input line.
 
 * `case v=<0..9> now=<ns> denom=<d> minp=<n> airp=<n> maxtok=<n>`                         → `case`
 * `wl k=<id> kind=<0..6> denom=<d> st=<start>:<end>:<price>:<peraddr>:<cntlim|x>;… mem=<a>:<c>,…;… lv=<stage|x>:<a>:<alloc|x>,…;…` → `env`
+* `noop` (a whitelist the harness failed to create)                                        → `env`
 * `t now=<ns>`                                                                            → `ok` | `err`
 * `create sender=<a> start=<ns> end=<ns|-> wl=<k|-> price=<n> limit=<n> ntok=<n|->`       → `ok <obs>` | `err`
 * `mint sender=<a> funds=<d:a|-> stage=<n|-> alloc=<n|-> proof=<-|b|j|p.k.i.stage.addr.alloc>` → `ok <obs> cnt=<n>` | `err`
@@ -85,6 +86,7 @@ def c04Line (s : State) (line : String) : State × String :=
       let v ← natKv ws "v"; let now ← natKv ws "now"; let d ← natKv ws "denom"
       let mp ← natKv ws "minp"; let ap ← natKv ws "airp"; let mt ← natKv ws "maxtok"
       pure (init (Variant.ofIdx v) now ⟨d, mp, ap, mt⟩, "case")
+    | some "noop" => some (s, "env")
     | some "wl" => do
       let (k, w) ← parseWl ws
       pure (step' s (.wlEnv k w), "env")
